@@ -87,6 +87,10 @@ func init() {
 		Gen:     GenRobustnessScript,
 		Oracles: func() []Oracle { return []Oracle{RobustnessOracle{}} },
 	}
+	Props["C15"] = PropDef{
+		Gen:     GenClosedSystemScript,
+		Oracles: func() []Oracle { return []Oracle{&LivelockOracle{}} },
+	}
 	Props["C02"] = PropDef{
 		Gen: func(t *rapid.T, thorough bool) *Script {
 			o := mixedOpts(thorough)
